@@ -133,6 +133,8 @@ def run(ctx: Any, prog: Program) -> None:
     ctx.rule('C11.L12', 'a writer that may append to the very list it is writing (find_or_insert on its own view) iterates the live list, so appended elements are written too', floor=1)
     ctx.rule('C11.L14', 'a writer skips a record only when every field that record would carry is at its default', floor=1)
     ctx.rule('C11.L15', 'auxiliary lumps rebuilt by a writer are stored under the same version conditions the reader applies when it reads them', floor=10)
+    ctx.rule('C11.L16', 'entity lump: a comma-separated value is taken for an output only when it has exactly the four separators the writer emits', floor=1)
+    ctx.rule('C11.L17', 'an index that is written negated to mark a reversed element can never be 0: slot 0 of its table is reserved unconditionally', floor=1)
     ctx.rule('C11.L13', 'find_or_extend reports an existing run only when the whole sublist lies inside the list', floor=1)
     ctx.rule('C11.L4', 'static props: identical slot sequence for every StaticPropVersion, record size equals the declared size', floor=20)
     ctx.rule('C11.L5', 'isinstance chains test subclasses before their base classes', floor=1)
@@ -388,6 +390,39 @@ def run(ctx: Any, prog: Program) -> None:
                       'for other versions the values the view holds are silently replaced by the stale or empty lump', func=f'BSP.{qn}', text=f'{qn}: {lump} stored')
     if n_aux < 10:
         raise AnalysisError(f'L15: only {n_aux} auxiliary lump stores found in the writers')
+    # ---- L16: entity lump, output vs keyvalue -----------------------------------------------------------------------------
+    re_ = ms['_lmp_read_ents']
+    cnt = [c for c in ast.walk(re_) if isinstance(c, ast.Compare) and isinstance(c.left, ast.Call) and isinstance(c.left.func, ast.Attribute) and c.left.func.attr == 'count'
+           and c.left.args and isinstance(c.left.args[0], ast.Constant) and c.left.args[0].value == ',']
+    if len(cnt) != 1:
+        ctx.shape('C11.L16', False, bsp, re_, 'the comma-count test that tells old-style outputs from keyvalues was not found', func='BSP._lmp_read_ents', text='output detection by comma count')
+    else:
+        c_ = cnt[0]
+        exact = len(c_.ops) == 1 and isinstance(c_.ops[0], ast.Eq) and isinstance(c_.comparators[0], ast.Constant) and c_.comparators[0].value == 4
+        ctx.check('C11.L16', exact, bsp, c_, f'`{ast.unparse(c_)}`: an output value is five fields joined by exactly four commas; a wider test also takes ordinary keyvalues with more commas '
+                  '(colour lists, point lists) for outputs whenever their last fields happen to be numbers - the key disappears and a bogus output is written back', func='BSP._lmp_read_ents', text='output detection by comma count')
+    # ---- L17: negated indexes --------------------------------------------------------------------------------------------
+    n_neg = 0
+    for qn, fn in ms.items():
+        if not qn.startswith('_lmp_write_'):
+            continue
+        finders = {t.id: dotted(a.value.args[0]) for a in ast.walk(fn) if isinstance(a, ast.Assign) and isinstance(a.value, ast.Call) and dotted(a.value.func) in ('find_or_insert', 'find_or_extend') and a.value.args
+                   for t in a.targets if isinstance(t, ast.Name)}
+        for u in ast.walk(fn):
+            if isinstance(u, ast.UnaryOp) and isinstance(u.op, ast.USub) and isinstance(u.operand, ast.Call) and isinstance(u.operand.func, ast.Name) and u.operand.func.id in finders:
+                n_neg += 1
+                tbl = finders[u.operand.func.id]
+                inits = [a for a in walk_no_nested(fn) if isinstance(a, (ast.Assign, ast.AnnAssign)) and dotted(a.targets[0] if isinstance(a, ast.Assign) else a.target) == tbl]
+                reserved = bool(inits) and isinstance(inits[0].value, ast.List) and len(inits[0].value.elts) >= 1 and bsp.parents.get(inits[0]) is fn
+                if not reserved and inits and bsp.parents.get(inits[0]) is fn:
+                    # `tbl = []` followed by an unconditional top-level append before the loop
+                    idx0 = fn.body.index(inits[0])
+                    reserved = any(isinstance(st, ast.Expr) and isinstance(st.value, ast.Call) and isinstance(st.value.func, ast.Attribute) and st.value.func.attr == 'append' and dotted(st.value.func.value) == tbl
+                                   for st in fn.body[idx0 + 1:] if not isinstance(st, (ast.For, ast.While)))
+                ctx.check('C11.L17', reserved, bsp, u, f'BSP.{qn} writes `{ast.unparse(u)}` for a reversed element: if that element is the first one put into `{tbl}` its index is 0 and -0 is 0, so it reads back as the '
+                          f'forward element. `{tbl}` must start with a reserved dummy entry on every path, not only when the first element happens to be reversed', func=f'BSP.{qn}', text=f'{qn}: slot 0 of {tbl} reserved')
+    if n_neg < 1:
+        raise AnalysisError('L17: no negated table index found in the lump writers (surfedges confirmed by hand)')
     # ---- L13 -------------------------------------------------------------------------------------------------
     bf = prog.module('binformat')
     foe = bf.func('find_or_extend')
@@ -496,6 +531,8 @@ def run(ctx: Any, prog: Program) -> None:
 
 
 MUTANTS = [
+    {'id': 'ents_output_if_four_or_more_commas', 'file': 'bsp.py', 'find': "            elif value.count(',') == 4:", 'replace': "            elif value.count(',') >= 4:", 'expect': 'C11.L16'},
+    {'id': 'surfedge_slot0_reserved_conditionally', 'file': 'bsp.py', 'find': "        edges: list[Edge] = [Edge(first_vert, first_vert)]\n", 'replace': "        edges: list[Edge] = []\n        if surf_edges and isinstance(surf_edges[0], RevEdge):\n            edges.append(Edge(first_vert, first_vert))\n", 'expect': 'C11.L17'},
     {'id': 'bmodel_phys_skipped_without_solids', 'file': 'bsp.py', 'find': "            if model.phys_keyvalues is not None:\n                kvs = model.phys_keyvalues.serialise().encode('ascii') + b'\\x00'\n            else:\n                kvs = b'\\x00'\n                if not model._phys_solids:\n                    continue  # No physics info.", 'replace': "            if not model._phys_solids:\n                continue\n            if model.phys_keyvalues is not None:\n                kvs = model.phys_keyvalues.serialise().encode('ascii') + b'\\x00'\n            else:\n                kvs = b'\\x00'", 'expect': 'C11.L14'},
     {'id': 'overlay_levels_only_for_l4d2', 'file': 'bsp.py', 'find': "        self.lumps[BSP_LUMPS.OVERLAY_SYSTEM_LEVELS].data = levels_buf.getvalue()", 'replace': "        if self.version >= VERSIONS.L4D2:\n            self.lumps[BSP_LUMPS.OVERLAY_SYSTEM_LEVELS].data = levels_buf.getvalue()", 'expect': 'C11.L15'},
     {'id': 'find_or_extend_tail_prefix', 'file': 'binformat.py', 'find': "                if i + len(items) <= len(item_list) and all(", 'replace': "                if all(", 'expect': 'C11.L13'},
